@@ -82,6 +82,8 @@ type Field struct {
 	Type  *Type `json:"type"`
 	// entity key markers
 	Primary bool   `json:"primary,omitempty"`
+	// PrimaryFalse: `primary = false` written out (allowed "to self-document")
+	PrimaryFalse bool `json:"primary_false,omitempty"`
 	Foreign string `json:"foreign,omitempty"` // "pkg.Entity"
 	Tenant  string `json:"tenant,omitempty"`
 	Shard   bool   `json:"shard,omitempty"`
